@@ -227,7 +227,7 @@ def run_cases(casedir, pattern="cases*.v", timeout=1500, jobs=8):
     mism, logs, ok = [], [], True
 
     def one(f):
-        rc, out = coqc(f, timeout=timeout, cwd=casedir, extra=["-Q", casedir, "Gen"])
+        rc, out = coqc(f, timeout=timeout, cwd=casedir, extra=["-noglob", "-Q", casedir, "Gen"])
         return f, rc, out
     with cf.ThreadPoolExecutor(max_workers=jobs) as ex:
         for f, rc, out in ex.map(one, files):
